@@ -239,6 +239,14 @@ static bool paramActive(const FitCase& c, const Eff& e, const ConsC& k)
 }
 
 // ------------------------------------------------------------------ generator -----------
+// Regions of the input space that end in a sanitizer abort or in minutes-long NaN iterations on the current tree
+// (known findings, replay files in agents/C17) are not generated by default; C17_ENABLE=intrinsic,constsill-multivar,
+// matern-lower re-opens them (to be used once the corresponding repair is in the tree).
+static bool enabled(const char* feature)
+{
+  static std::string e = getenv("C17_ENABLE") ? std::string(",") + getenv("C17_ENABLE") + "," : std::string();
+  return e.find(std::string(",") + feature + ",") != std::string::npos || e.find(",all,") != std::string::npos;
+}
 static const int kTruthTypes[] = {0, 1, 2, 3, 4, 1, 2};          // simulable by turning bands in 2-D/3-D
 static const int kFitCommon[] = {0, 1, 2, 3, 4, 1, 2, 0, 11, 7};   // frequent
 static const int kFitAll[] = {0, 1, 2, 3, 4, 5, 6, 7, 8, 9, 10, 11, 12, 13, 19, 21, 25};
@@ -317,7 +325,7 @@ static OptC genOpt(int nvar)
   o.lock_iso2d = G::pct(15);
   o.keep_intstr = G::pct(10);
   o.goulard = nvar > 1 ? !G::pct(3) : !G::pct(25);
-  o.intrinsic = 0; // known finding C17-intrinsic-crash: flag_intrinsic dereferences an unallocated array (replay file only)
+  o.intrinsic = enabled("intrinsic") ? G::pct(8) : 0; // known finding C17-intrinsic-crash (unallocated array)
   o.wmode = G::pick({2, 2, 0, 1, 3});
   // the default (1000) costs minutes under ASan when the search zig-zags: kept rare
   o.maxiter = G::pct(3) ? 1000 : G::pick({200, 100, 100, 50, 20, 3});
@@ -393,7 +401,7 @@ static void genCons(FitCase& c, double vref)
   // the default value 1 makes st_affect start at the middle of [bound, parmax = 1000] where MATERN evaluates to NaN
   for (auto& k : c.cons)
   {
-    if (k.elem != 3 || k.kind != -1 || c.types[(size_t)k.icov] != 7 || k.value <= 1.) continue;
+    if (enabled("matern-lower") || k.elem != 3 || k.kind != -1 || c.types[(size_t)k.icov] != 7 || k.value <= 1.) continue;
     bool upper = false;
     for (auto& o : c.cons) upper = upper || (o.elem == 3 && o.icov == k.icov && o.kind == 1);
     if (!upper) k.value = 0.9 * k.value / 5.;
@@ -429,6 +437,9 @@ static FitCase genFitCommon(bool sillsOnly)
   }
   c.opt = genOpt(c.nvar);
   c.constSill = G::pct(15) ? gscale * G::u(0.5, 2.) : 0.;
+  // known finding C17-constant-sill-multivar: the constrained Goulard start (model_auto.cpp:3243) yields NaN sills; the
+  // iterations then never converge (minutes per case) and a NaN parameter handed to MATERN ends in a sanitizer abort
+  if (c.constSill > 0 && c.nvar > 1 && !enabled("constsill-multivar")) c.constSill = 0.;
   int nt = G::pick({1, 2, 2, 3, 3});
   bool distinct = G::pct(85);
   for (int s = 0; s < nt; s++)
@@ -444,11 +455,6 @@ static FitCase genFitCommon(bool sillsOnly)
   }
   if (c.types.empty()) c.types.push_back(2);
   if (c.constSill > 0) c.opt.goulard = 1;
-  // known finding C17-constant-sill-multivar: the constrained Goulard start (model_auto.cpp:3243) yields NaN sills, and a
-  // NaN parameter handed to MATERN ends in a sanitizer abort (replay file only); other types fail with a key
-  if (c.constSill > 0 && c.nvar > 1)
-    for (auto& t : c.types)
-      if (t == 7) t = 1;
   double vref = 0;
   for (auto& s : c.truth) vref += s.a[0] * s.a[0];
   if (!sillsOnly && c.constSill <= 0) genCons(c, vref);
@@ -460,7 +466,7 @@ static FitCase genFit() { return genFitCommon(false); }
 static FitCase genSills()
 {
   FitCase c = genFitCommon(true);
-  c.opt.intrinsic = 0;
+  c.opt.intrinsic = enabled("intrinsic") ? G::pct(15) : 0;
   return c;
 }
 
@@ -1323,7 +1329,7 @@ static VMapCase genVMap()
       break;
     }
   c.opt = genOpt(c.nvar);
-  c.opt.intrinsic = 0;
+  c.opt.intrinsic = enabled("intrinsic") ? G::pct(15) : 0;
   // constraints: ranges / params only (same encoding as for fit_vario; the map fit always authorises anisotropy and rotation)
   int n = G::pick({0, 0, 1, 2});
   for (int q = 0; q < n; q++)
